@@ -1,4 +1,127 @@
 //! @module peer_record::verif_proofs
-//! Kani contracts and proof harnesses for this module (child module, cfg(kani) only).
+//! C09. The deciding engine is the Verus unit `peerrec`. This module holds the NATIVE FAILING-INPUT
+//! SEARCH used to attach a concrete input to a failed obligation (Verus gives no counterexample) and
+//! to decide when the proof no longer goes through for a reason other than a tagged postcondition.
 #![allow(unused_imports)]
 use super::*;
+
+#[cfg(test)]
+mod search {
+    use super::*;
+    use crate::quantum_crypto::generate_ml_dsa_keypair;
+
+    struct Rng(u64);
+    impl Rng {
+        fn next(&mut self) -> u64 {
+            self.0 ^= self.0 << 13;
+            self.0 ^= self.0 >> 7;
+            self.0 ^= self.0 << 17;
+            self.0
+        }
+        fn below(&mut self, n: u64) -> u64 {
+            self.next() % n
+        }
+    }
+
+    fn endpoint(addr: &str) -> PeerEndpoint {
+        let mut e = PeerEndpoint::new(EndpointId::new(), addr.parse().expect("addr"), NatType::FullCone, vec!["c1".to_string()], Some("dev".to_string()));
+        e.last_updated = 1_700_000_000;
+        e
+    }
+
+    fn genuine(seq: u64, name: Option<&str>, n_endpoints: usize, ttl: u32) -> (PeerDHTRecord, MlDsaSecretKey) {
+        let (pk, sk) = generate_ml_dsa_keypair().expect("keygen");
+        let id = UserId::from_public_key(&pk);
+        let eps: Vec<PeerEndpoint> = (0..n_endpoints).map(|i| endpoint(&format!("192.168.1.{}:8080", i + 1))).collect();
+        let mut r = PeerDHTRecord::new(id, pk, seq, name.map(|s| s.to_string()), eps, ttl).expect("valid inputs");
+        r.sign(&sk).expect("sign");
+        (r, sk)
+    }
+
+    /// field-level mutations that keep (id, sequence, timestamp) and/or the signature
+    fn mutants(r: &PeerDHTRecord, other: &PeerDHTRecord) -> Vec<(&'static str, PeerDHTRecord)> {
+        let mut v = Vec::new();
+        let mut m = r.clone();
+        m.endpoints = vec![endpoint("10.66.66.66:9999")];
+        v.push(("endpoints", m));
+        let mut m = r.clone();
+        m.name = Some("mallory".to_string());
+        v.push(("name", m));
+        let mut m = r.clone();
+        m.name = None;
+        v.push(("name-none", m));
+        let mut m = r.clone();
+        m.ttl = if r.ttl == MAX_TTL_SECONDS { 1 } else { MAX_TTL_SECONDS };
+        v.push(("lifetime", m));
+        let mut m = r.clone();
+        m.sequence_number = r.sequence_number + 1;
+        v.push(("sequence", m));
+        let mut m = r.clone();
+        m.timestamp = r.timestamp + 1;
+        v.push(("timestamp", m));
+        let mut m = r.clone();
+        m.version = r.version.wrapping_add(1);
+        v.push(("version", m));
+        let mut m = r.clone();
+        m.public_key = other.public_key.clone();
+        v.push(("key", m));
+        let mut m = r.clone();
+        m.user_id = other.user_id.clone();
+        v.push(("id", m));
+        let mut m = r.clone();
+        m.user_id = other.user_id.clone();
+        m.public_key = other.public_key.clone();
+        v.push(("id+key (foreign owner, stolen signature)", m));
+        let mut m = r.clone();
+        m.signature = other.signature.clone();
+        v.push(("signature", m));
+        v
+    }
+
+    #[test]
+    fn verif_search_c09() {
+        let seed: u64 = std::env::var("VERIF_SEED").ok().and_then(|s| s.parse().ok()).unwrap_or(0);
+        let mut rng = Rng(0x9e37_79b9_7f4a_7c15 ^ seed.wrapping_mul(0x1000_0000_01b3) | 1);
+        // ---- construction bounds (name length, 1..16 endpoints, lifetime 1 s..24 h)
+        let ep = endpoint("192.168.1.1:8080");
+        for (name_len, n_eps, ttl) in [(None, 1usize, 1u32), (Some(0usize), 1, 300), (Some(1), 1, 300), (Some(255), 16, 86_400), (Some(256), 1, 300), (None, 0, 300), (None, 16, 300), (None, 17, 300), (None, 1, 0), (None, 1, 86_400), (None, 1, 86_401), (None, 1, u32::MAX)] {
+            let name = name_len.map(|n| "n".repeat(n));
+            let want = name_len.is_none_or(|n| (1..=255).contains(&n)) && (1..=16).contains(&n_eps) && (1..=86_400).contains(&ttl);
+            let got = PeerDHTRecord::validate_inputs(&name, &vec![ep.clone(); n_eps], ttl).is_ok();
+            if got != want {
+                panic!("VERIF-SEARCH-HIT C09/bounds/construction_accepts_exactly_the_documented_bounds name_len={:?} endpoints={} ttl={} accepted={}", name_len, n_eps, ttl, got);
+            }
+        }
+        // ---- direct verification: genuine accepted, every field-level mutant rejected
+        let (r, _) = genuine(7, Some("alice"), 2, DEFAULT_TTL_SECONDS);
+        let (o, _) = genuine(7, Some("alice"), 2, DEFAULT_TTL_SECONDS);
+        if r.verify_signature().is_err() {
+            panic!("VERIF-SEARCH-HIT C09/verify/succeeds_iff_id_derived_from_key_and_signature_covers_this_record genuine record rejected");
+        }
+        let ms = mutants(&r, &o);
+        for (what, m) in &ms {
+            if m.verify_signature().is_ok() {
+                panic!("VERIF-SEARCH-HIT C09/verify/succeeds_iff_id_derived_from_key_and_signature_covers_this_record record with altered {} accepted", what);
+            }
+        }
+        // ---- cache: every interleaving sampled must give the direct verdict, all small capacities
+        let mut pool: Vec<(String, PeerDHTRecord)> = vec![("genuine".into(), r.clone()), ("other-genuine".into(), o.clone())];
+        pool.extend(ms.into_iter().map(|(w, m)| (w.to_string(), m)));
+        for cap in [1usize, 2, 3, 5, 64] {
+            for _ in 0..40 {
+                let mut cache = SignatureCache::new(cap);
+                let mut hist = String::new();
+                for _ in 0..(2 + rng.below(10)) {
+                    let (w, rec) = &pool[rng.below(pool.len() as u64) as usize];
+                    hist.push_str(w);
+                    hist.push_str(", ");
+                    let direct = rec.verify_signature().is_ok();
+                    let cached = cache.verify_cached(rec).is_ok();
+                    if direct != cached {
+                        panic!("VERIF-SEARCH-HIT C09/cache/cached_verdict_equals_direct_verification capacity={} direct={} cached={} history=[{}]", cap, direct, cached, hist);
+                    }
+                }
+            }
+        }
+    }
+}
